@@ -256,6 +256,16 @@ func evalCase(c maprCase) lib.Outcome {
 		o.Observed = map[string]interface{}{"rows": dist.Rows, "partition": c.Part}
 		return o
 	}
+	// (2a) on any table: the groups, their counts and their last/len values are what the reference model's
+	// where / set / group-by evaluation yields (sums, minima, maxima, averages are left to the metamorphic oracle)
+	if !c.Table.Clean {
+		if msg := model.CheckResult(q, model.Structure(exp), dist.Rows); msg != "" {
+			o.Fail = "groups / counts differ from central evaluation by the reference model: " + msg
+			o.Expected = map[string]interface{}{"query": queryStr, "groups": fmtExp(model.Structure(exp)), "lines": clipLines(c)}
+			o.Observed = map[string]interface{}{"rows": dist.Rows}
+			return o
+		}
+	}
 	// (2) reference model on the restricted domain
 	if c.Table.Clean {
 		if msg := model.CheckResult(q, exp, dist.Rows); msg != "" {
